@@ -70,6 +70,12 @@ Lemma w_str_range : panics_at (U (B "s100000000000000""a") true SIface) (HAllocR
 Lemma w_next_neg : panics_at (U (B "b-5""abc") true SIface) HNextNeg. Proof. witness. Qed.
 Lemma w_str_index : panics_at (U (B "s4611686018427387904""abc""") true SIface) HStrIndex. Proof. witness. Qed.
 Lemma w_str_slice : panics_at (U [x75; xf0; x61; x62] true SIface) HStrSlice. Proof. witness. Qed.
+(* an oracle under which every text parses and every exponent is huge *)
+Definition orc_yes : okind -> bytes -> option bool := fun _ _ => Some true.
+Definition Uy (bs : bytes) (smp : bool) (sh : shape) : verdict aval :=
+  interp no_checks (unmarshal orc_yes reg0 pinned (fuel_for reg0 bs 8) bs smp sh).
+Lemma w_big_exp_int : panics_at (Uy (B "d1e100000000;") true (SBig BInt)) HBigExp. Proof. witness. Qed.
+Lemma w_big_exp_rat : panics_at (Uy (B "s11""1e100000000""") true (SBig BRat)) HBigExp. Proof. witness. Qed.
 Lemma w_bigrat_nil : panics_at (U (B "lxyz;") true (SBig BRat)) HBigRatNil. Proof. witness. Qed.
 Lemma w_unhashable : panics_at (U (B "m1{a{}1}") true SIface) HUnhashable. Proof. witness. Qed.
 Lemma w_ref_nil_set : panics_at (Cl (B "Ra2{1r0;}z") [int_; SIface]) HRefNilSet. Proof. witness. Qed.
@@ -529,6 +535,11 @@ Proof. intros k t s. unfold parse_force. solveA. Qed.
 Lemma allR_parse_soft : forall k t s, allR s (parse_soft orc k t s).
 Proof. intros k t s. unfold parse_soft. solveA. Qed.
 
+Lemma allR_parse_big : forall b t s, allR s (parse_big orc b t s).
+Proof. intros b t s. unfold parse_big, parse_rat. destruct b; try apply allR_parse_soft. solveA; apply allR_parse_soft. Qed.
+Lemma allR_float_to_int : forall t s, allR s (float_to_int orc t s).
+Proof. intros t s. unfold float_to_int. apply allR_bnd; [apply allR_parse_soft|]. intros. solveA. Qed.
+
 Ltac useA lem := match goal with |- allR ?s0 (_ ?x) => idtac end.
 
 Ltac stepB :=
@@ -541,6 +552,8 @@ Ltac stepB :=
   | |- allR ?s0 (read_float _ _ ?x) => apply (allR_weaken _ _ s0 x); [solveR|apply allR_read_float]
   | |- allR ?s0 (parse_force _ _ _ ?x) => apply (allR_weaken _ _ s0 x); [solveR|apply allR_parse_force]
   | |- allR ?s0 (parse_soft _ _ _ ?x) => apply (allR_weaken _ _ s0 x); [solveR|apply allR_parse_soft]
+  | |- allR ?s0 (parse_big _ _ _ ?x) => apply (allR_weaken _ _ s0 x); [solveR|apply allR_parse_big]
+  | |- allR ?s0 (float_to_int _ _ ?x) => apply (allR_weaken _ _ s0 x); [solveR|apply allR_float_to_int]
   | H : forall ch r s, allR s (convert _ _ ch r ?e s) |- allR ?s0 (convert _ _ _ _ ?e ?x) =>
       apply (allR_weaken _ _ s0 x); [solveR|apply H]
   | _ => stepA
